@@ -775,4 +775,64 @@ def M33.ctorElems {α : Type} (a : M33 α) : (M33 α) :=
 def M44.ctorElems {α : Type} (a : M44 α) : (M44 α) :=
   ⟨a.x00, a.x01, a.x02, a.x03, a.x10, a.x11, a.x12, a.x13, a.x20, a.x21, a.x22, a.x23, a.x30, a.x31, a.x32, a.x33⟩
 
+/-- extracted from the C++ template at T = Sym; 1 path(s) -/
+def M22.narrowCtor {α : Type} {β : Type} (cast : β → α) (a : M22 β) : (M22 α) :=
+  ⟨(cast a.x00), (cast a.x01), (cast a.x10), (cast a.x11)⟩
+
+/-- extracted from the C++ template at T = Sym; 1 path(s) -/
+def M22.narrowSetValueM {α : Type} {β : Type} (cast : β → α) (a : M22 α) (b : M22 β) : (M22 α) :=
+  ⟨(cast b.x00), (cast b.x01), (cast b.x10), (cast b.x11)⟩
+
+/-- extracted from the C++ template at T = Sym; 1 path(s) -/
+def M22.narrowGetValueM {α : Type} {β : Type} (cast : β → α) (a : M22 β) (b : M22 α) : (M22 α) :=
+  ⟨(cast a.x00), (cast a.x01), (cast a.x10), (cast a.x11)⟩
+
+/-- extracted from the C++ template at T = Sym; 1 path(s) -/
+def M33.narrowCtor {α : Type} {β : Type} (cast : β → α) (a : M33 β) : (M33 α) :=
+  ⟨(cast a.x00), (cast a.x01), (cast a.x02), (cast a.x10), (cast a.x11), (cast a.x12), (cast a.x20), (cast a.x21), (cast a.x22)⟩
+
+/-- extracted from the C++ template at T = Sym; 1 path(s) -/
+def M33.narrowSetValueM {α : Type} {β : Type} (cast : β → α) (a : M33 α) (b : M33 β) : (M33 α) :=
+  ⟨(cast b.x00), (cast b.x01), (cast b.x02), (cast b.x10), (cast b.x11), (cast b.x12), (cast b.x20), (cast b.x21), (cast b.x22)⟩
+
+/-- extracted from the C++ template at T = Sym; 1 path(s) -/
+def M33.narrowGetValueM {α : Type} {β : Type} (cast : β → α) (a : M33 β) (b : M33 α) : (M33 α) :=
+  ⟨(cast a.x00), (cast a.x01), (cast a.x02), (cast a.x10), (cast a.x11), (cast a.x12), (cast a.x20), (cast a.x21), (cast a.x22)⟩
+
+/-- extracted from the C++ template at T = Sym; 1 path(s) -/
+def M44.narrowCtor {α : Type} {β : Type} (cast : β → α) (a : M44 β) : (M44 α) :=
+  ⟨(cast a.x00), (cast a.x01), (cast a.x02), (cast a.x03), (cast a.x10), (cast a.x11), (cast a.x12), (cast a.x13), (cast a.x20), (cast a.x21), (cast a.x22), (cast a.x23), (cast a.x30), (cast a.x31), (cast a.x32), (cast a.x33)⟩
+
+/-- extracted from the C++ template at T = Sym; 1 path(s) -/
+def M44.narrowSetValueM {α : Type} {β : Type} (cast : β → α) (a : M44 α) (b : M44 β) : (M44 α) :=
+  ⟨(cast b.x00), (cast b.x01), (cast b.x02), (cast b.x03), (cast b.x10), (cast b.x11), (cast b.x12), (cast b.x13), (cast b.x20), (cast b.x21), (cast b.x22), (cast b.x23), (cast b.x30), (cast b.x31), (cast b.x32), (cast b.x33)⟩
+
+/-- extracted from the C++ template at T = Sym; 1 path(s) -/
+def M44.narrowGetValueM {α : Type} {β : Type} (cast : β → α) (a : M44 β) (b : M44 α) : (M44 α) :=
+  ⟨(cast a.x00), (cast a.x01), (cast a.x02), (cast a.x03), (cast a.x10), (cast a.x11), (cast a.x12), (cast a.x13), (cast a.x20), (cast a.x21), (cast a.x22), (cast a.x23), (cast a.x30), (cast a.x31), (cast a.x32), (cast a.x33)⟩
+
+/-- extracted from the C++ template at T = Sym; 1 path(s) -/
+def M22.narrowSetTheMatrix {α : Type} {β : Type} (cast : β → α) (a : M22 α) (b : M22 β) : (M22 α) :=
+  ⟨(cast b.x00), (cast b.x01), (cast b.x10), (cast b.x11)⟩
+
+/-- extracted from the C++ template at T = Sym; 1 path(s) -/
+def M33.narrowSetTheMatrix {α : Type} {β : Type} (cast : β → α) (a : M33 α) (b : M33 β) : (M33 α) :=
+  ⟨(cast b.x00), (cast b.x01), (cast b.x02), (cast b.x10), (cast b.x11), (cast b.x12), (cast b.x20), (cast b.x21), (cast b.x22)⟩
+
+/-- extracted from the C++ template at T = Sym; 1 path(s) -/
+def M44.narrowSetTheMatrix {α : Type} {β : Type} (cast : β → α) (a : M44 α) (b : M44 β) : (M44 α) :=
+  ⟨(cast b.x00), (cast b.x01), (cast b.x02), (cast b.x03), (cast b.x10), (cast b.x11), (cast b.x12), (cast b.x13), (cast b.x20), (cast b.x21), (cast b.x22), (cast b.x23), (cast b.x30), (cast b.x31), (cast b.x32), (cast b.x33)⟩
+
+/-- extracted from the C++ template at T = Sym; 1 path(s) -/
+def M22.interopArr2 {α : Type} (a : M22 α) : (M22 α) :=
+  ⟨a.x00, a.x01, a.x10, a.x11⟩
+
+/-- extracted from the C++ template at T = Sym; 1 path(s) -/
+def M33.interopArr2 {α : Type} (a : M33 α) : (M33 α) :=
+  ⟨a.x00, a.x01, a.x02, a.x10, a.x11, a.x12, a.x20, a.x21, a.x22⟩
+
+/-- extracted from the C++ template at T = Sym; 1 path(s) -/
+def M44.interopArr2 {α : Type} (a : M44 α) : (M44 α) :=
+  ⟨a.x00, a.x01, a.x02, a.x03, a.x10, a.x11, a.x12, a.x13, a.x20, a.x21, a.x22, a.x23, a.x30, a.x31, a.x32, a.x33⟩
+
 end ImathVerif.Gen
